@@ -198,8 +198,9 @@ def correspondence(pid, tier, seed):
     # codes 100+c: the only disagreements of that scenario are rounding-level (within 1e-9 relative in every field of every instant).
     # They are recorded and make the search look harder, but do not by themselves contradict the tie: the model and the code agree as
     # closely as the property (checked by the search on the code itself) can tell.
-    rounding = [(g, c - 100, k) for g, c, k in mism_all if 100 <= c < 200]
-    mism = [(g, c, k) for g, c, k in mism_all if not 100 <= c < 200]
+    rounding = [(g, c % 100, k) for g, c, k in mism_all if 100 <= c < 300]
+    diverged = len([1 for g, c, k in mism_all if 200 <= c < 300])      # ... up to a discrete decision that rounding noise flipped
+    mism = [(g, c, k) for g, c, k in mism_all if not 100 <= c < 300]
     broken = list(grid_broken)
     if errs:
         broken.append('solver correspondence: a case file did not evaluate: ' + errs[0][1][-300:])
@@ -230,7 +231,7 @@ def correspondence(pid, tier, seed):
     rows = sum(len(r['rows'] or []) for r in res2)
     samples = [dict(motor=s['motor'], elems=s['elems'], load=s['load'], ops=s['ops']) for s in scs2[:2]]
     return dict(ok=not broken, evaluations=len(scs2), nontrivial=nt, samples=samples, rule=RULE[pid],
-                distribution=dict(outcomes=dist, chain_sizes=sizes, recorded_instants=rows, mismatching_any_field=len(mism), rounding_level_only=len(rounding), long_grid_cases=grid_n),
+                distribution=dict(outcomes=dist, chain_sizes=sizes, recorded_instants=rows, mismatching_any_field=len(mism), rounding_level_only=len(rounding), rounding_flipped_a_decision=diverged, long_grid_cases=grid_n),
                 broken=broken, failing_cases=failing, _runs=(scs2, res2))
 
 
